@@ -4,6 +4,10 @@
 
 package handlers
 
+// (C15) Nothing in this package creates, replaces, renames or removes a file:
+// the outfile is only ever touched through mapr.(*GroupSet).WriteResult.
+//@ fs-writers-only nothing
+
 //@ type baseHandler invariant [made] self.done != nil && self.commands != nil
 //@ type MaprHandler invariant [aggregate] self.aggregate != nil
 
